@@ -107,9 +107,13 @@ class PosInterp:
                 for v in ir.kids(s):
                     if v.get("kind") == "VarDecl":
                         init = ir.ekids(v)
-                        val = self.ev(init[-1], env) if init else Poly()
-                        if isinstance(val, tuple) and val[0] == "obj":
-                            val = ("obj", dict(val[1]))      # copy construction
+                        is_ref = ir.wtype(v).rstrip().endswith("&") or ir.qtype(v).rstrip().endswith("&")
+                        src = init[-1] if init else None
+                        if is_ref and src is not None and src.get("kind") in ("ParenListExpr", "InitListExpr") and len(ir.ekids(src)) == 1:
+                            src = ir.ekids(src)[0]       # `T& r(x)`: binds to x itself
+                        val = self.ev(src, env) if src is not None else Poly()
+                        if isinstance(val, tuple) and val[0] == "obj" and not is_ref:
+                            val = ("obj", dict(val[1]))      # copy construction (a reference variable aliases the object instead)
                         env[v["id"]] = val
                 continue
             if k in ("NullStmt",):
@@ -151,6 +155,17 @@ class PosInterp:
                 return v[1], v[2]
         raise Giveup("not an lvalue: " + str(k))
 
+    def put(self, place, new):
+        """store `new` at a place; an object is updated in place so that reference variables bound to it observe the change"""
+        cur = place[0].get(place[1])
+        if isinstance(cur, tuple) and cur[0] == "obj" and isinstance(new, tuple) and new[0] == "obj" and cur is not new:
+            nv = dict(new[1])
+            cur[1].clear()
+            cur[1].update(nv)
+            return cur
+        place[0][place[1]] = new
+        return new
+
     def get(self, place):
         c, k = place
         if k not in c:
@@ -191,7 +206,13 @@ class PosInterp:
                 place = self.lval(ks[0], env)
                 old = self.get(place)
                 new = self.add(old, Poly.const(1 if op == "++" else -1))
-                place[0][place[1]] = new
+                if isinstance(old, tuple) and old[0] == "obj" and isinstance(new, tuple) and new[0] == "obj":
+                    # mutate in place so that references bound to the object see the change
+                    snap = ("obj", dict(old[1]))
+                    old[1].clear()
+                    old[1].update(new[1])
+                    return snap if n.get("isPostfix") else old
+                new = self.put(place, new)
                 return old if n.get("isPostfix") else new
             if op == "*":
                 v = self.ev(ks[0], env)
@@ -221,7 +242,7 @@ class PosInterp:
                     place = self.lval(ks[1], env)
                     old = self.get(place)
                     new = self.add(old, Poly.const(1 if op == "++" else -1))
-                    place[0][place[1]] = new
+                    new = self.put(place, new)
                     return new
                 if op == "*":
                     v = self.ev(ks[1], env)
@@ -240,7 +261,7 @@ class PosInterp:
             name = t[1] if t[0] == "ref" else (t[2] if t[0] == "mem" else "?")
             if name == "advance" and len(ks) == 3:
                 place = self.lval(ks[1], env)
-                place[0][place[1]] = self.add(self.get(place), self.ev(ks[2], env))
+                self.put(place, self.add(self.get(place), self.ev(ks[2], env)))
                 return None
             if name == "distance" and len(ks) == 3:
                 a, b = self.ev(ks[1], env), self.ev(ks[2], env)
@@ -281,7 +302,7 @@ class PosInterp:
             place = self.lval(l, env)
             rv = self.ev(r, env)
             if op == "=":
-                place[0][place[1]] = rv
+                self.put(place, rv)
                 return rv
             cur = self.get(place)
             if isinstance(cur, tuple) and cur[0] == "obj":
@@ -291,7 +312,7 @@ class PosInterp:
                 cur[1]["pos"] = new[1]["pos"]
                 return cur
             new = self.add(cur, rv if op == "+=" else self.neg(rv))
-            place[0][place[1]] = new
+            new = self.put(place, new)
             return new
         a = self.ev(l, env)
         b = self.ev(r, env)
